@@ -83,10 +83,21 @@ type caOpts struct {
 	poison     int
 	serverAuth bool
 	notAfter   time.Time
+	key        *ecdsa.PrivateKey // reuse this key (a second certificate of an existing CA); nil: a new key
+}
+
+// reissue mints ANOTHER certificate for the CA a: same subject, same key, new serial number,
+// signed by parent (a's own parent: a re-issued intermediate; another CA: a cross-signed one).
+// Everything a issued verifies through either certificate.
+func (p *pki) reissue(a *authority, parent *authority) *authority {
+	return p.newAuthority(a.name, parent, caOpts{ctEKU: a.cert.UnknownExtKeyUsage != nil, key: a.key})
 }
 
 func (p *pki) newAuthority(name string, parent *authority, o caOpts) *authority {
-	key := mustKey()
+	key := o.key
+	if key == nil {
+		key = mustKey()
+	}
 	na := o.notAfter
 	if na.IsZero() {
 		na = p.now.Add(20 * 365 * 24 * time.Hour)
